@@ -364,6 +364,9 @@ fn close_mode(inputs: &[Value], si: usize, sn: usize, out: &mut TraceOut, pend: 
         match kind.as_str() {
             "idle" | "at-point" | "writer-busy" => {
                 let cfgv = inp.get("config").cloned().unwrap_or(json!({}));
+                // no worker of an earlier scenario may still be around: "the worker is gone" below must
+                // mean THIS store's worker (an operation it had in flight at the drop may finish first)
+                wait_until(|| bg_threads() == 0, Duration::from_secs(5));
                 let base_bg = bg_threads();
                 shim::start(&dir, false);
                 let kv: Bitcask = make_config(&dir, &cfgv).open().expect("open");
